@@ -329,6 +329,12 @@ def directed(pool):
                     "#[derive(::educe::Educe)]\n#[educe(Debug(name = false), Hash)]\npub struct Ty2 {\n    #[educe(Debug(method = \"%s::zz_show\"), Hash(method = \"%s::zz_h\"))]\n    pub k: u8,\n    pub j: u8,\n}\n"
                     "#[derive(::educe::Educe)]\n#[educe(Debug, Hash)]\npub enum Ty3 {\n    #[educe(Debug(name = false))]\n    V { #[educe(Debug(method(%s::zz_show)), Hash(method(%s::zz_h)))] k: u8, j: u8 },\n"
                     "    W(#[educe(Hash(method = %s::zz_h))] u8),\n}\n" % (x, x, x, x, x, x, x, x, x)))
+        # raw string literals are string literals too
+        out.append(("method-path-raw-string", x,
+                    "pub struct %s {}\npub fn zz_typed<Q>(v: &u8, f: &mut ::core::fmt::Formatter<'_>) -> ::core::fmt::Result { ::core::fmt::Debug::fmt(v, f) }\n"
+                    "pub fn zz_typed_h<Q, Sx: ::core::hash::Hasher>(v: &u8, s: &mut Sx) { ::core::hash::Hash::hash(v, s) }\n"
+                    "#[derive(::educe::Educe)]\n#[educe(Debug(name = false), Hash)]\npub struct Ty {\n    #[educe(Debug(method = r\"zz_typed::<%s>\"), Hash(method(r#\"zz_typed_h::<%s, _>\"#)))]\n    pub k: u8,\n    pub j: u8,\n}\n"
+                    % (x, x, x)))
         # the name together with its lengthened forms, longest first: a fresh name must avoid all of them at once
         chain = [x + x[-1] * 2, base + base[-1], x]
         out.append(("type-param-chain", x,
@@ -379,6 +385,28 @@ def special_context_cases():
     for name, body in bodies:
         out.append(("primitives-shadowed/" + name, "primitive", shadow + body))
         out.append(("no-implicit-prelude/" + name, "prelude", noprel + body))
+    # the Hasher parameter has to avoid the generic parameters and the method paths AT ONCE (`<H>` pushes it to `HH`, which a
+    # path then names)
+    for params, arg in (("H", "HH"), ("H, HH", "HHH"), ("HH", "H"), ("const H: usize", "HH")):
+        decl = ", ".join(p if p.startswith("const") else p for p in params.split(", "))
+        fields = "".join(", ::core::marker::PhantomData<%s>" % p for p in params.split(", ") if not p.startswith("const"))
+        out.append(("hasher-name/parameters-and-path", arg,
+                    "#![allow(dead_code)]\npub struct %s;\npub fn zz_tagged<Q, Sx: ::core::hash::Hasher>(v: &u8, s: &mut Sx) { ::core::hash::Hash::hash(v, s) }\n"
+                    "pub trait Marker {}\nimpl Marker for %s {}\npub fn zz_marked<Q: Marker, Sx: ::core::hash::Hasher>(v: &u8, s: &mut Sx) { ::core::hash::Hash::hash(v, s) }\n"
+                    "#[derive(::educe::Educe)]\n#[educe(Hash)]\npub struct Ty<%s>(#[educe(Hash(method(zz_marked::<%s, _>)))] pub u8%s);\n"
+                    "#[derive(::educe::Educe)]\n#[educe(Hash)]\npub enum Ty2<%s> {\n    V(#[educe(Hash(method = \"zz_marked::<%s, _>\"))] u8%s),\n}\n"
+                    % (arg, arg, decl, arg, fields, decl, arg, fields)))
+    # a type declared inside a function body: `self::name` is the module's item, a bare `name` would be the function's own
+    for t, sig, body, attr, head in METHOD_TEMPLATES:
+        if t == "Into":
+            continue
+        for sp in ("method(self::zz_m)", "method = self::zz_m", "method = \"self::zz_m\"", "method(\"self::zz_m\")"):
+            a = attr.replace("method(%s)", sp)
+            out.append(("self-path-in-fn-body/" + t, "self",
+                        "#![allow(dead_code)]\npub fn zz_m%s { %s }\npub fn holder() {\n    fn zz_m() {}\n    let _ = zz_m;\n"
+                        "    #[derive(::educe::Educe)]\n    #[educe(%s)]\n    pub struct Ty {\n        #[educe(%s)]\n        pub a: u8,\n        pub b: u8,\n    }\n"
+                        "    #[derive(::educe::Educe)]\n    #[educe(%s)]\n    pub enum Ty2 {\n        V { #[educe(%s)] a: u8, b: u8 },\n        W(#[educe(%s)] u8, u8),\n    }\n}\n"
+                        % (sig, body, head, a, head, a, a)))
     # a field whose type is the user's own (non-Copy) type called `u8`: it is cloned like any other field
     out.append(("primitives-shadowed/user-type-field", "primitive",
                 shadow + "#[derive(::educe::Educe)]\n#[educe(Clone)]\npub struct Ty {\n    pub a: u8,\n    pub b: %su16,\n}\n"
